@@ -1,9 +1,9 @@
 SPECIFICATION Spec
 CONSTANTS
   SpinSync = TRUE
-  ObliqOn = FALSE
+  ObliqOn = TRUE
   NVals = 2
-  NLayers = 1
+  NLayers = 2
   Bug = "none"
 INVARIANT C13_Fresh_Layered
 INVARIANT SyncHolds
